@@ -24,6 +24,7 @@ import (
 	"io"
 	"math"
 	"regexp"
+	"regexp/syntax"
 	"sort"
 
 	"github.com/lindb/roaring"
@@ -206,8 +207,7 @@ func (b *TrieBucket) Suggest(prefix string, limit int) (rs []string) {
 
 // FindValuesByRegexp returns values by regexp expression.
 func (b *TrieBucket) FindValuesByRegexp(rp *regexp.Regexp, ids []uint32) []uint32 {
-	literalPrefix, _ := rp.LiteralPrefix()
-	literalPrefixByte := strutil.String2ByteSlice(literalPrefix)
+	literalPrefixByte := keyPrefixOfRegexp(rp)
 	for _, kv := range b.kvs {
 		itr := kv.tree.NewPrefixIterator(literalPrefixByte)
 		for itr.Valid() {
@@ -218,6 +218,24 @@ func (b *TrieBucket) FindValuesByRegexp(rp *regexp.Regexp, ids []uint32) []uint3
 		}
 	}
 	return ids
+}
+
+// keyPrefixOfRegexp returns the prefix which every matching key must start with.
+// The literal prefix of a regexp is the start of the match, it is the start of the key
+// only if the expression is anchored at the beginning of the text.
+func keyPrefixOfRegexp(rp *regexp.Regexp) []byte {
+	re, err := syntax.Parse(rp.String(), syntax.Perl)
+	if err != nil {
+		return nil
+	}
+	re = re.Simplify()
+	anchored := re.Op == syntax.OpBeginText ||
+		(re.Op == syntax.OpConcat && len(re.Sub) > 0 && re.Sub[0].Op == syntax.OpBeginText)
+	if !anchored {
+		return nil
+	}
+	literalPrefix, _ := rp.LiteralPrefix()
+	return strutil.String2ByteSlice(literalPrefix)
 }
 
 // FindValuesByLike returns values by like expression.
